@@ -8,7 +8,8 @@ case:  `T <tree> P <pattern>`
 impl observation:  `OBS <e…>` first expansion in the order of `sf.Globs[pattern]`, `OBS2` a second fresh SpokFile,
   `OBSB` the first SpokFile expanded again; `SEQ` = `OBS` (or `na` when the pattern has `{`), `SET` = sorted, duplicate-free.
   Entries are `f:<rel>` / `d:<rel>`; `-` = none; `notglob` when spok does not treat the string as a glob.
-answer:  `SEQ … ; SET …` of the model `||` `C05=ok|FAIL|na` (the judge on the implementation's observation) -/
+  `LEG`: doublestar.GlobWalk called directly with the pinned callback (`SkipDir` for hidden paths), `na` with `{`.
+answer:  `SEQ … ; SET … ; LEG …` (`LEG` = the walk model with `legacyCallback`) of the model `||` `C05=ok|FAIL|na` (the judge on the implementation's observation) -/
 namespace Spok.Oracle.Glob
 open Spok.Glob Spok.Judge
 
@@ -43,7 +44,7 @@ def handle (line : String) : String :=
       | none => "BAD-CASE || C05=FAIL"
       | some es =>
         let t := Node.ofEntries es
-        if !isGlob ps.toList then "SEQ notglob ; SET notglob || C05=na"
+        if !isGlob ps.toList then "SEQ notglob ; SET notglob ; LEG notglob || C05=na"
         else match Pattern.parse ps.toList with
           | none => "SEQ unsupported ; SET unsupported || C05=na"
           | some pat =>
@@ -54,7 +55,8 @@ def handle (line : String) : String :=
             let v := match rd "OBS", rd "OBS2", rd "OBSB" with
               | some o, some o2, some ob => if c05 t pat o o2 ob then "ok" else "FAIL"
               | _, _, _ => "FAIL"
-            s!"SEQ {seq} ; SET {showList (sortDedup m)} || C05={v}"
+            let leg := if pat.any Seg.hasAlt then "na" else showList ((run legacyCallback t pat).map showVisit)
+            s!"SEQ {seq} ; SET {showList (sortDedup m)} ; LEG {leg} || C05={v}"
     | _ => "BAD-CASE || C05=FAIL"
   | _ => "BAD-LINE || C05=FAIL"
 
